@@ -4,6 +4,7 @@
    variables:  0 all variables distinct   1 w is u   2 w is v   3 u is v (w distinct)   4 all one variable.
    Output: ALLOC (w), SIZ (w), value of w — compared exactly with the size-aware models of
    lean/Mpir/Model/AllocSafeMpz4.lean; the recording allocator / red zones turn an overrun into a marker. */
+#include <string.h>
 #include "harness.h"
 #include "gmp-impl.h"
 #define NEED(c) do { if (!(c)) return -1; } while (0)
@@ -110,6 +111,17 @@ static int op_sqrtrem(int argc, tok_t *a, out_t *o) {
   mpz_clear(q); mpz_clear(r); mpz_clear(u); return 0;
 }
 
+/* mpz_set_d (w, d): wa wv bits (the 64-bit pattern of the double); NaN / Inf raise the invalid-operation exception */
+static int op_set_d(int argc, tok_t *a, out_t *o) {
+  NEED(argc == 3 && ISUI(2));
+  unsigned long b = tok_ulong(&a[2]); double d; memcpy(&d, &b, 8);
+  mpz_t w; int e;
+  NEED(mk(w, &a[0], &a[1]) == 0);
+  e = GUARD(mpz_set_d(w, d));
+  if (e) out_err(o, "fpe"); else outw(o, w);
+  mpz_clear(w); return 0;
+}
+
 /* mpz_sqrt (w, u): mode wa wv ua uv; mode 0 or 1; a negative operand raises SQRT_OF_NEGATIVE */
 static int op_sqrt(int argc, tok_t *a, out_t *o) {
   NEED(argc == 5); long m = mode_of(&a[0]); NEED(m == 0 || m == 1);
@@ -135,6 +147,6 @@ static int op_mpf_urandomb(int argc, tok_t *a, out_t *o) {
 
 const opdef_t ops_allocsafe4[] = {
   {"as4_addmul_ui", op_addmul_ui}, {"as4_submul_ui", op_submul_ui},
-  {"as4_addmul", op_addmul}, {"as4_submul", op_submul}, {"as4_mul", op_mul}, {"as4_mpf_urandomb", op_mpf_urandomb}, {"as4_sqrt", op_sqrt}, {"as4_sqrtrem", op_sqrtrem}, {"as4_tdiv_qr", op_tdiv_qr}, {"as4_tdiv_q", op_tdiv_q}, {"as4_tdiv_r", op_tdiv_r},
+  {"as4_addmul", op_addmul}, {"as4_submul", op_submul}, {"as4_mul", op_mul}, {"as4_mpf_urandomb", op_mpf_urandomb}, {"as4_sqrt", op_sqrt}, {"as4_set_d", op_set_d}, {"as4_sqrtrem", op_sqrtrem}, {"as4_tdiv_qr", op_tdiv_qr}, {"as4_tdiv_q", op_tdiv_q}, {"as4_tdiv_r", op_tdiv_r},
   {0, 0}
 };
